@@ -54,8 +54,28 @@ def close(a, b, rtol=1e-7, atol=1e-9):
     a, b = np.asarray(a), np.asarray(b)
     if a.shape != b.shape:
         return False
+    both_nan = np.isnan(a) & np.isnan(b)
+    both_inf = np.isinf(a) & np.isinf(b) & (np.sign(np.real(a)) == np.sign(np.real(b)))
+    same = both_nan | both_inf
+    if np.any(same):
+        a = np.where(same, 0, a)
+        b = np.where(same, 0, b)
+    if not (np.all(np.isfinite(a)) and np.all(np.isfinite(b))):
+        return False
     s = max(1.0, float(np.max(np.abs(a))) if a.size else 1.0, float(np.max(np.abs(b))) if b.size else 1.0)
     return bool(np.all(np.abs(a - b) <= atol * s + rtol * np.maximum(np.abs(a), np.abs(b))))
+
+
+def close_sem(a, b, sem, rtol=1e-7, atol=1e-9):
+    """like close, but in the log-space semirings entries whose expected value is exactly zero (log = -inf) are
+    not compared: rounding noise of an exactly-zero quantity has no meaningful logarithm"""
+    a, b = np.asarray(a), np.asarray(b)
+    if sem != "sum-product" and a.shape == b.shape:
+        z = (b == 0)
+        if np.any(z):
+            a = np.where(z, 0, a)
+            b = np.where(z, 0, b)
+    return close(a, b, rtol=rtol, atol=atol)
 
 
 def cplx_ok(sem):
